@@ -28,19 +28,19 @@ func (s *Slice) Init(*onnx.NodeProto) error {
 func (s *Slice) Apply(inputs []tensor.Tensor) ([]tensor.Tensor, error) {
 	data := inputs[0]
 
-	starts, err := ops.AnyToIntSlice(ops.IfScalarToSlice(inputs[1].Data()))
+	starts, err := s.getIndices(inputs[1])
 	if err != nil {
 		return nil, err
 	}
 
-	ends, err := ops.AnyToIntSlice(ops.IfScalarToSlice(inputs[2].Data()))
+	ends, err := s.getIndices(inputs[2])
 	if err != nil {
 		return nil, err
 	}
 
 	axes := s.getDefaultAxes(len(starts))
 	if inputs[3] != nil {
-		axes, err = ops.AnyToIntSlice(ops.IfScalarToSlice(inputs[3].Data()))
+		axes, err = s.getIndices(inputs[3])
 		if err != nil {
 			return nil, err
 		}
@@ -48,10 +48,15 @@ func (s *Slice) Apply(inputs []tensor.Tensor) ([]tensor.Tensor, error) {
 
 	steps := s.getDefaultSteps(len(starts))
 	if inputs[4] != nil {
-		steps, err = ops.AnyToIntSlice(ops.IfScalarToSlice(inputs[4].Data()))
+		steps, err = s.getIndices(inputs[4])
 		if err != nil {
 			return nil, err
 		}
+	}
+
+	starts, ends, axes, err = s.normalizeSlices(starts, ends, steps, axes, data.Shape())
+	if err != nil {
+		return nil, err
 	}
 
 	slices := s.constructSlices(starts, ends, steps, axes, len(data.Shape()))
@@ -62,6 +67,81 @@ func (s *Slice) Apply(inputs []tensor.Tensor) ([]tensor.Tensor, error) {
 	}
 
 	return []tensor.Tensor{out.Materialize()}, nil
+}
+
+// getIndices returns the values of an index tensor (starts, ends, axes or steps) as ints.
+// The data of an empty tensor can not be accessed, so that is handled separately.
+func (s *Slice) getIndices(t tensor.Tensor) ([]int, error) {
+	if t.Shape().TotalSize() == 0 {
+		return []int{}, nil
+	}
+
+	return ops.AnyToIntSlice(ops.IfScalarToSlice(t.Data()))
+}
+
+// normalizeSlices validates the slice parameters and converts them to the form that is
+// needed for slicing the tensor: axes are made non-negative, and starts and ends are made
+// non-negative and clamped to the size of their axis, according to the ONNX standard.
+func (s *Slice) normalizeSlices(starts, ends, steps, axes []int, shape tensor.Shape) ([]int, []int, []int, error) {
+	nSlices := len(starts)
+	if len(ends) != nSlices || len(steps) != nSlices || len(axes) != nSlices {
+		return nil, nil, nil, ops.ErrInvalidInput("starts, ends, axes and steps must have the same length", s)
+	}
+
+	nDims := len(shape)
+	if !ops.AllInRange(axes, -nDims, nDims-1) {
+		return nil, nil, nil, ops.ErrNotAllAxesInRange(nDims, nDims)
+	}
+
+	newStarts := make([]int, nSlices)
+	newEnds := make([]int, nSlices)
+	newAxes := make([]int, nSlices)
+	seen := make([]bool, nDims)
+
+	for i := 0; i < nSlices; i++ {
+		axis := ops.ConvertNegativeAxis(axes[i], nDims)
+		if seen[axis] {
+			return nil, nil, nil, ops.ErrInvalidInput("axes cannot have duplicate entries", s)
+		}
+
+		seen[axis] = true
+
+		if steps[i] <= 0 {
+			return nil, nil, nil, ops.ErrInvalidInput("only positive steps are supported", s)
+		}
+
+		dimSize := shape[axis]
+		start := clampSliceIndex(starts[i], dimSize)
+		end := clampSliceIndex(ends[i], dimSize)
+
+		if end <= start {
+			return nil, nil, nil, ops.ErrInvalidInput("empty slices are not supported", s)
+		}
+
+		newStarts[i] = start
+		newEnds[i] = end
+		newAxes[i] = axis
+	}
+
+	return newStarts, newEnds, newAxes, nil
+}
+
+// clampSliceIndex converts a negative index (counting from the end of the axis) to a
+// positive one, and clamps the result to the range [0, dimSize].
+func clampSliceIndex(index, dimSize int) int {
+	if index < 0 {
+		index += dimSize
+	}
+
+	if index < 0 {
+		return 0
+	}
+
+	if index > dimSize {
+		return dimSize
+	}
+
+	return index
 }
 
 // ValidateInputs validates the inputs that will be given to Apply for this operator.
